@@ -1,12 +1,12 @@
 package main
 
 import (
-	"bytes"
 	"encoding/json"
 	"fmt"
 
 	"github.com/ossrs/go-oryx-lib/amf0"
 	"verifharness/amf0x"
+	"verifharness/ld"
 	"verifharness/rp"
 )
 
@@ -33,30 +33,32 @@ func init() {
 }
 
 // marshalled checks MarshalBinary and Size() of a value against the specification's bytes.
-func marshalled(i int, who string, a amf0.Amf0, want []byte) *rp.Result {
+// Positions the format leaves to the writer (free: the ECMA associative count) are not compared.
+func marshalled(i int, who string, a amf0.Amf0, want []byte, free []bool) ([]byte, *rp.Result) {
 	// Size() first: it must not depend on a previous MarshalBinary
 	if n := a.Size(); n != len(want) {
 		r := rp.Fail(i, "%s: Size() = %d before marshalling, the specification's encoding has %d bytes", who, n, len(want))
-		return &r
+		return nil, &r
 	}
 	got, err := a.MarshalBinary()
 	if err != nil {
 		r := rp.Fail(i, "%s: MarshalBinary failed: %v", who, err)
-		return &r
+		return nil, &r
 	}
-	if !bytes.Equal(got, want) {
-		r := rp.Fail(i, "%s: MarshalBinary differs from the specification's encoding: %s", who, rp.FirstDiff(got, want))
-		return &r
+	if d := ld.DiffFree(got, want, free); d != "" {
+		r := rp.Fail(i, "%s: MarshalBinary differs from the specification's encoding: %s", who, d)
+		return nil, &r
 	}
 	if n := a.Size(); n != len(got) {
 		r := rp.Fail(i, "%s: Size() = %d but MarshalBinary wrote %d bytes", who, n, len(got))
-		return &r
+		return nil, &r
 	}
-	return nil
+	return got, nil
 }
 
 // decodedAs checks one decoding: success, Size() = consumed, the tree, and the bytes it marshals to.
-func decodedAs(i int, who string, stream []byte, v *amf0x.Node, size int, canon []byte, seed int) (amf0x.Decoded, *rp.Result) {
+// canon: what the decoded value must marshal to, positions marked free excepted (nil: every byte counts).
+func decodedAs(i int, who string, stream []byte, v *amf0x.Node, size int, canon []byte, free []bool, seed int) (amf0x.Decoded, *rp.Result) {
 	d := amf0x.Decode(stream)
 	if !d.OK {
 		r := rp.Fail(i, "%s: decoding %d bytes failed: %v", who, len(stream), d.Err)
@@ -75,8 +77,8 @@ func decodedAs(i int, who string, stream []byte, v *amf0x.Node, size int, canon 
 		r := rp.Fail(i, "%s: marshalling the decoded value failed: %v", who, err)
 		return d, &r
 	}
-	if !bytes.Equal(again, canon) {
-		r := rp.Fail(i, "%s: marshalling the decoded value does not reproduce the bytes (names, order, counts): %s", who, rp.FirstDiff(again, canon))
+	if df := ld.DiffFree(again, canon, free); df != "" {
+		r := rp.Fail(i, "%s: marshalling the decoded value does not reproduce the bytes (names, order, values): %s", who, df)
 		return d, &r
 	}
 	if n := d.Value.Size(); n != size {
@@ -88,18 +90,27 @@ func decodedAs(i int, who string, stream []byte, v *amf0x.Node, size int, canon 
 
 func tree(c *rp.Ctx, i int, cs *amf0x.Case) rp.Result {
 	seed := c.Seed
-	want := amf0x.MustLD(cs.Enc, seed)
+	want, free := amf0x.MustLDFree(cs.Enc, seed)
 	if len(want) != cs.Size {
 		amf0x.Broken("case %d: encoding has %d bytes, size says %d", i, len(want), cs.Size)
 	}
 	// model -> code: the tree built through the public API marshals to exactly these Size() bytes
 	if cs.API {
-		if f := marshalled(i, "tree built with New*/Set", amf0x.Build(&cs.V, seed), want); f != nil {
+		got, f := marshalled(i, "tree built with New*/Set", amf0x.Build(&cs.V, seed), want, free)
+		if f != nil {
+			return *f
+		}
+		// ... and unmarshalling THOSE bytes yields an equal tree whose re-marshalling reproduces them, every byte
+		if _, f := decodedAs(i, "the bytes the library marshalled", got, &cs.V, cs.Size, got, nil, seed); f != nil {
 			return *f
 		}
 		if len(cs.Calls) > 0 {
 			// the behaviour itself, Set replacing values of existing names
-			if f := marshalled(i, fmt.Sprintf("behaviour of %d New/Set calls", len(cs.Calls)), amf0x.Replay(cs.Calls, seed), want); f != nil {
+			got, f := marshalled(i, fmt.Sprintf("behaviour of %d New/Set calls", len(cs.Calls)), amf0x.Replay(cs.Calls, seed), want, free)
+			if f != nil {
+				return *f
+			}
+			if _, f := decodedAs(i, "the bytes the library marshalled after the New/Set calls", got, &cs.V, cs.Size, got, nil, seed); f != nil {
 				return *f
 			}
 		}
@@ -107,7 +118,7 @@ func tree(c *rp.Ctx, i int, cs *amf0x.Case) rp.Result {
 		amf0x.Broken("case %d: a behaviour of the builder that is not buildable", i)
 	}
 	// the bytes alone
-	dec, f := decodedAs(i, "exact bytes", want, &cs.V, cs.Size, want, seed)
+	dec, f := decodedAs(i, "exact bytes", want, &cs.V, cs.Size, want, free, seed)
 	if f != nil {
 		return *f
 	}
@@ -118,24 +129,24 @@ func tree(c *rp.Ctx, i int, cs *amf0x.Case) rp.Result {
 	}
 	// stray bytes behind the value are not its business
 	trail := amf0x.MustLD(cs.Trail, seed)
-	if _, f := decodedAs(i, fmt.Sprintf("with %d trailing bytes", len(trail)), amf0x.Cat(want, trail), &cs.V, cs.Size, want, seed); f != nil {
+	if _, f := decodedAs(i, fmt.Sprintf("with %d trailing bytes", len(trail)), amf0x.Cat(want, trail), &cs.V, cs.Size, want, free, seed); f != nil {
 		return *f
 	}
 	// the way rtmp's command parsers walk a message: decode, advance by Size(), decode the next field
 	if cs.Next != nil {
-		next := amf0x.MustLD(cs.EncNext, seed)
+		next, freeNext := amf0x.MustLDFree(cs.EncNext, seed)
 		if len(next) != cs.SizeNext {
 			amf0x.Broken("case %d: next encoding has %d bytes, size_next says %d", i, len(next), cs.SizeNext)
 		}
 		stream := amf0x.Cat(want, next, trail)
-		d, f := decodedAs(i, "followed by another value", stream, &cs.V, cs.Size, want, seed)
+		d, f := decodedAs(i, "followed by another value", stream, &cs.V, cs.Size, want, free, seed)
 		if f != nil {
 			return *f
 		}
 		if d.Size > len(stream) {
 			return rp.Fail(i, "Size() = %d exceeds the %d bytes that were decoded", d.Size, len(stream))
 		}
-		if _, f := decodedAs(i, fmt.Sprintf("the value that follows at offset Size() = %d", d.Size), stream[d.Size:], cs.Next, cs.SizeNext, next, seed); f != nil {
+		if _, f := decodedAs(i, fmt.Sprintf("the value that follows at offset Size() = %d", d.Size), stream[d.Size:], cs.Next, cs.SizeNext, next, freeNext, seed); f != nil {
 			return *f
 		}
 	}
@@ -145,11 +156,11 @@ func tree(c *rp.Ctx, i int, cs *amf0x.Case) rp.Result {
 // rawCase: a decodable encoding that is not the canonical one (boolean byte other than 0 / 1).
 func rawCase(c *rp.Ctx, i int, cs *amf0x.Case) rp.Result {
 	wire := amf0x.MustLD(cs.Wire, c.Seed)
-	canon := amf0x.MustLD(cs.Enc, c.Seed)
+	canon, free := amf0x.MustLDFree(cs.Enc, c.Seed)
 	if len(wire) != cs.Size {
 		amf0x.Broken("case %d: wire has %d bytes, size says %d", i, len(wire), cs.Size)
 	}
-	if _, f := decodedAs(i, "non-canonical bytes", amf0x.Cat(wire, []byte{0, 0, 9}), &cs.V, cs.Size, canon, c.Seed); f != nil {
+	if _, f := decodedAs(i, "non-canonical bytes", amf0x.Cat(wire, []byte{0, 0, 9}), &cs.V, cs.Size, canon, free, c.Seed); f != nil {
 		return *f
 	}
 	return rp.Result{OK: true, Nontriv: true}
